@@ -128,13 +128,15 @@ def _strategy(draw):
             isomer = {"resname": "RI", "atoms": [dict(a) for a in base["atoms"]], "bonds": new_bonds,
                       "angles": [], "impropers": [], "vs": None}
             resdefs = resdefs + [isomer]
+    same_mol = draw(st.booleans())
     moltypes = []
     for mi in range(draw(st.integers(1, 2))):
         pool = list(resdefs)
         if isomer is not None:
             pool = pool + [base, isomer]
         if variant is not None and mi == 1:
-            pool = [variant] + resdefs[1:]
+            # the second molecule type uses the variant, alone or next to the residue whose name it shares
+            pool = [variant] + resdefs[1:] + ([resdefs[0], variant] if same_mol else [])
         nres = draw(st.integers(1, 4))
         residues = [draw(st.sampled_from(pool)) for _ in range(nres)]
         moltypes.append({"name": f"M{'AB'[mi]}", "residues": residues})
@@ -155,7 +157,8 @@ def _strategy(draw):
         if draw(st.integers(0, 3)) == 0:
             build["volumes"][rd["resname"]] = draw(st.sampled_from([0.35, 0.5, 0.72]))
     return {"kind": "system", "moltypes": moltypes, "molecules": molecules, "build": build,
-            "variant": variant is not None, "rng": draw(st.integers(0, 2**31 - 1))}
+            "variant": variant is not None, "rng": draw(st.integers(0, 2**31 - 1)),
+            "skip_filter": draw(st.integers(0, 2)) == 0}
 
 
 def strategy(tier):
@@ -406,7 +409,7 @@ def check(spec, ctx):
         topology = Topology.from_gmx_topfile(str(top), "test")
         topology.preprocess()
         load_build_files(topology, None, [bpath] if build_text.strip() else [])
-        gt.GenerateTemplates(topology=topology, max_opt=10, skip_filter=False).run_system(topology)
+        gt.GenerateTemplates(topology=topology, max_opt=10, skip_filter=bool(spec.get("skip_filter"))).run_system(topology)
     except gc._Timeout:
         raise Inconclusive("template generation timed out")
     except (IOError, OSError) as err:
